@@ -162,7 +162,6 @@ Fixpoint sweep (k : nat) (start : Z) : bool :=
   | S k' => sweep k' start && sweep k' (start + 2 ^ Z.of_nat k')
   end.
 
-(* all 106,752 day numbers that an instant 0 <= t < 2^63 ns can fall on: 65536 + 32768 + 8192 + 256 *)
+(* the 106,752 day numbers an instant 0 <= t < 2^63 ns can fall on (0 .. 106751); Names/CivilSweep.v
+   evaluates [sweep] on the four blocks 65536 + 32768 + 8192 + 256 that cover them *)
 Definition NDAYS : Z := 106752.
-Definition sweep_all : bool :=
-  sweep 16 0 && sweep 15 65536 && sweep 13 98304 && sweep 8 106496.
